@@ -140,7 +140,8 @@ impl C19 {
                 v.truncate = false;
             }
             // envelope S11: outside the band by at most 6 smallest units of the ask token
-            let six = &unit_j * 6u32 * &r;
+            // (+ the swap path's fixed-point slack on pools worth a tiny fraction of a token)
+            let six = &unit_j * 6u32 * &r + super::c03::fixed_point_slack(mx, &d);
             let beyond = if g > hi_b { &g - &hi_b } else if lo_b > g { &lo_b - &g } else { BigUint::zero() };
             if beyond <= six {
                 v.finding = Some("S11-quote-accuracy-within-8-units".into());
